@@ -17,26 +17,26 @@ theorem into4 (a b c d : Nat) : (Rust.into (a, b, c, d) : Version) = Version.mk4
 theorem primitive_table (op : Operation) (p : Partial) : Semver.Gen.primitive_table (op, p) = primitiveSet op p := by
   obtain ⟨ma, mi, pa, pre, build⟩ := p
   cases op <;> cases ma <;> cases mi <;> cases pa <;>
-    simp [Semver.Gen.primitive_table, primitiveSet, into3, into4, Version.mk3, Version.mk4, into_partial, BoundSet_at_least, BoundSet_at_most,
+    simp [Semver.Gen.primitive_table, primitiveSet, into3, into4, Version.mk3, Version.mk4, Rust.unwrap_or, Rust.is_some, Rust.is_none, Rust.and, Rust.map_or, Rust.map, RMap.map, Rust.flatten, RFlatten.flatten, into_partial, BoundSet_at_least, BoundSet_at_most,
       BoundSet_exact, BoundSet_new, zero0, Rust.unwrap_or, Partial.toVersion, Version.mk3, Version.mk4]
 
 theorem partial_table (p : Partial) : Semver.Gen.partial_table p = partialSet p := by
   obtain ⟨ma, mi, pa, pre, build⟩ := p
   cases ma <;> cases mi <;> cases pa <;>
-    simp [Semver.Gen.partial_table, partialSet, into3, into4, Version.mk3, Version.mk4, into_partial, BoundSet_at_least, BoundSet_exact,
+    simp [Semver.Gen.partial_table, partialSet, into3, into4, Version.mk3, Version.mk4, Rust.unwrap_or, Rust.is_some, Rust.is_none, Rust.and, Rust.map_or, Rust.map, RMap.map, Rust.flatten, RFlatten.flatten, into_partial, BoundSet_at_least, BoundSet_exact,
       BoundSet_new, Partial.toVersion, Version.mk3, Version.mk4]
 
 theorem tilde_table (gt : Option (List Char)) (p : Partial) :
     Semver.Gen.tilde_table (gt, p) = tildeSet gt.isSome p := by
   obtain ⟨ma, mi, pa, pre, build⟩ := p
   cases gt <;> cases ma <;> cases mi <;> cases pa <;>
-    simp [Semver.Gen.tilde_table, tildeSet, into3, into4, Version.mk3, Version.mk4, BoundSet_at_least, BoundSet_new, Rust.unwrap_or,
+    simp [Semver.Gen.tilde_table, tildeSet, into3, into4, Version.mk3, Version.mk4, Rust.unwrap_or, Rust.is_some, Rust.is_none, Rust.and, Rust.map_or, Rust.map, RMap.map, Rust.flatten, RFlatten.flatten, BoundSet_at_least, BoundSet_new, Rust.unwrap_or,
       Version.mk3, Version.mk4]
 
 theorem caret_table (p : Partial) : Semver.Gen.caret_table p = caretSet p := by
   obtain ⟨ma, mi, pa, pre, build⟩ := p
   rcases ma with _ | (_ | ma) <;> rcases mi with _ | (_ | mi) <;> cases pa <;>
-    simp [Semver.Gen.caret_table, caretSet, into3, into4, Version.mk3, Version.mk4, BoundSet_at_least, BoundSet_at_most, BoundSet_new,
+    simp [Semver.Gen.caret_table, caretSet, into3, into4, Version.mk3, Version.mk4, Rust.unwrap_or, Rust.is_some, Rust.is_none, Rust.and, Rust.map_or, Rust.map, RMap.map, Rust.flatten, RFlatten.flatten, BoundSet_at_least, BoundSet_at_most, BoundSet_new,
       Version.mk3, Version.mk4]
 
 theorem foldl_none (l : List BoundSet) :
